@@ -324,7 +324,12 @@ Section W.
                 match t_special td with
                 | Some _ =>
                     match fields with
-                    | [VScalar (SText s) off] => add_str_raw indent (crlf_to_lf s) off o
+                    | [VScalar (SText s) off] =>
+                        (* A2ml::stringify: with /end A2ML on the line of the text (offset 0) a text that ends in white space gets a
+                           line break of its own, the tokenizer drops white space in front of /end up to and including one line break *)
+                        let text := crlf_to_lf s in
+                        let guard := (l_eo lay =? 0) && match rev text with c :: _ => is_ws c && negb (aeq c cr) | [] => false end in
+                        add_str_raw indent (if guard then text ++ [lf] else text) off o
                     | _ => o
                     end
                 | None =>
